@@ -2,6 +2,7 @@ package main
 
 import (
 	"bufio"
+	"bytes"
 	"encoding/json"
 	"fmt"
 	"io"
@@ -162,6 +163,19 @@ func (st *steerer) lstep(kinds ...string) bool {
 	return st.ensure("L", kinds...)
 }
 
+// realToks: how many tokens of the real lexer one token of the model stands for under the payload rendering in use
+func (st *steerer) realToks(v string) int {
+	if atomic.LoadInt32(&nlFirst) == 1 {
+		switch v {
+		case "tok":
+			return 4 // print ( 1 )
+		case "bad":
+			return 3 // print ) (
+		}
+	}
+	return 2 // eval 1 | eval ) | print ) | ERR FAIL
+}
+
 func (st *steerer) open() {
 	if !st.freed {
 		st.freed = true
@@ -200,7 +214,12 @@ func (st *steerer) do(s schedStep) bool {
 		case "idle": // the model's step from "nothing left in this chunk" to "needs input": the real lexer is there already
 			return st.ensure("L", "need")
 		case "tok", "bad":
-			return st.lstep("tok") && st.lstep(hookOf(s.N))
+			for i := st.realToks(s.V); i > 1; i-- {
+				if !st.lstep("tok") {
+					return false
+				}
+			}
+			return st.lstep(hookOf(s.N))
 		case "fail": // the real lexer reports the character (an ERR token) and then fails (a FAIL token)
 			if !(st.lstep("tok") && st.lstep("closed")) {
 				return false
@@ -217,7 +236,7 @@ func (st *steerer) do(s schedStep) bool {
 	case "PRecv": // the hook point is after the receive: the parser is let go on and seen again at its next receive
 		n := 1
 		if s.V != "eof" {
-			n = 2
+			n = st.realToks(s.V)
 		}
 		for i := 0; i < n; i++ {
 			if !(st.ensure("P", "tok") && st.release("P")) {
@@ -249,6 +268,7 @@ func (f *gatedFile) Close() error {
 type schedObs struct {
 	pipeObs
 	Lost         string `json:"lost,omitempty"`
+	Log          string `json:"diagnostics,omitempty"`
 	ErrDelivered bool   `json:"read_error_delivered"`
 	Passed       int    `json:"hook_points_steered"`
 }
@@ -268,6 +288,7 @@ func runSched(c *schedCase, api string, wd time.Duration) (o schedObs, logs map[
 			atomic.AddInt32(&readsAfter, 1)
 		}
 	}
+	var lg bytes.Buffer
 	before := bclGoroutineIDs()
 	setSink(st.sink)
 	type res struct {
@@ -283,7 +304,7 @@ func runSched(c *schedCase, api string, wd time.Duration) (o schedObs, logs map[
 			}
 			done <- r
 		}()
-		opts := []bcl.Option{bcl.OptLogger(io.Discard), bcl.OptOutput(io.Discard)}
+		opts := []bcl.Option{bcl.OptLogger(&lg), bcl.OptOutput(io.Discard)}
 		switch api {
 		case "ParseFile":
 			_, r.err = bcl.ParseFile(f, opts...)
@@ -303,7 +324,7 @@ func runSched(c *schedCase, api string, wd time.Duration) (o schedObs, logs map[
 		}
 	}
 	o.Lost = st.lost
-	if st.lost != "" && os.Getenv("SCHED_DEBUG") != "" {
+	if (st.lost != "" && os.Getenv("SCHED_DEBUG") != "") || os.Getenv("SCHED_DEBUG") == "2" {
 		rec.mu.Lock()
 		fmt.Fprintf(os.Stderr, "LOST %s\n script=%+v\n L=%+v\n P=%+v\n R=%+v\n", st.lost, c.Script, rec.logs["L"], rec.logs["P"], rec.logs["R"])
 		rec.mu.Unlock()
@@ -334,6 +355,7 @@ func runSched(c *schedCase, api string, wd time.Duration) (o schedObs, logs map[
 	o.RAfter = int(atomic.LoadInt32(&readsAfter))
 	o.Leaked = bclGoroutinesSince(before)
 	o.Passed = int(atomic.LoadInt32(&st.passed))
+	o.Log = lg.String() // the call has returned and its goroutines are gone
 	for k := 0; k < f.i && k < len(f.steps); k++ {
 		if e := f.steps[k].err; e != nil && e != io.EOF {
 			o.ErrDelivered = true
@@ -402,6 +424,10 @@ func replaySched(args []string) int {
 		defer w.Flush()
 		enc = json.NewEncoder(w)
 	}
+	sameLog := op.str("samelog", "") != "" // C16: the diagnostics of an input must not depend on the schedule
+	atomic.StoreInt32(&nlFirst, int32(op.int("nlfirst", 0)))
+	defer atomic.StoreInt32(&nlFirst, 0)
+	diagOf := map[string]string{}
 	lost, steered, points, written, events, hangs := 0, 0, 0, 0, 0, 0
 	acts := map[string]int{}
 	i := 0
@@ -420,6 +446,9 @@ func replaySched(args []string) int {
 			return
 		}
 		api := []string{"ParseFile", "ParseFile", "InterpretFile", "UnmarshalFile"}[i%4]
+		if sameLog {
+			api = "ParseFile"
+		}
 		i++
 		if lost > 20 {
 			schedPatience = 300 * time.Millisecond
@@ -448,6 +477,35 @@ func replaySched(args []string) int {
 			why2, _ := judgeSched(&c, o2)
 			s.bad(why, shape, raw, o, why2 != "")
 			return
+		}
+		if sameLog && o.Lost == "" && !o.Hang && api == "ParseFile" {
+			// the reference is the one execution that has no schedule: Parse on the bytes the reader delivers (up to a read error)
+			key, _ := json.Marshal(c.Script)
+			ref, ok := diagOf[string(key)]
+			if !ok {
+				var whole []byte
+				for _, it := range c.Script {
+					st := it.step()
+					if st.err != nil && st.err != io.EOF {
+						break
+					}
+					whole = append(whole, st.data...)
+				}
+				var lg bytes.Buffer
+				func() {
+					defer func() { recover() }()
+					bcl.Parse(whole, "sched.bcl", bcl.OptLogger(&lg), bcl.OptOutput(io.Discard))
+				}()
+				ref = lg.String()
+				diagOf[string(key)] = ref
+			}
+			if os.Getenv("SCHED_DEBUG") != "" {
+				fmt.Fprintf(os.Stderr, "REF %q\nGOT %q\n", ref, o.Log)
+			}
+			if ref != o.Log {
+				s.bad("the diagnostics of ParseFile under this schedule of its goroutines differ from those of the same input parsed in one piece", "schedule-dependent-diagnostics", raw,
+					map[string]string{"one_piece": ref, "this_schedule": o.Log}, true)
+			}
 		}
 		if enc != nil && written < tvMax && o.Lost == "" && api == "ParseFile" && logs != nil {
 			ret := map[string]int{"nil": 0, "parseerr": 1, "readerr": 3}[o.Ret]
